@@ -118,8 +118,14 @@ def run_symgo(spec, wdir, name, timeout):
         os.remove(op)
     t0 = time.time()
     try:
-        r = subprocess.run([SYMGO, "-spec", sp, "-out", op], env=goenv(), capture_output=True, text=True, timeout=timeout)
+        env = goenv()
+        # soft memory limit for the engine (16 workers, each with its own copy of the package-level state of the
+        # packages under test): the garbage collector works harder instead of the process growing until it is killed
+        env.setdefault("GOMEMLIMIT", "10GiB")
+        r = subprocess.run([SYMGO, "-spec", sp, "-out", op], env=env, capture_output=True, text=True, timeout=timeout)
         rc, err = r.returncode, r.stderr
+        if rc < 0:
+            err += f"\nsymgo was terminated by signal {-rc} (out of memory?)"
     except subprocess.TimeoutExpired:
         rc, err = 124, "symgo timed out"
     if not os.path.exists(op):
